@@ -305,7 +305,7 @@ func c40FlowGen(t *rapid.T, depth int, inA bool) c40Node {
 	if depth <= 0 || k < 4 {
 		return c40PhrasingGen(t, depth, inA)
 	}
-	tag := rapid.SampledFrom([]string{"div", "blockquote", "p", "pre", "ul", "table", "div", "p"}).Draw(t, "flowtag")
+	tag := rapid.SampledFrom([]string{"div", "blockquote", "p", "pre", "ul", "table", "div", "p", "listing"}).Draw(t, "flowtag")
 	n := c40Node{Tag: tag}
 	c40AttrsGen(t, &n)
 	nk := rapid.IntRange(0, 3).Draw(t, "nkids")
@@ -314,7 +314,7 @@ func c40FlowGen(t *rapid.T, depth int, inA bool) c40Node {
 		for i := 0; i < nk; i++ {
 			n.Kids = append(n.Kids, c40FlowGen(t, depth-1, false))
 		}
-	case "p", "pre":
+	case "p", "pre", "listing":
 		for i := 0; i < nk; i++ {
 			n.Kids = append(n.Kids, c40PhrasingGen(t, depth-1, false))
 		}
@@ -521,6 +521,9 @@ func c40TreeProp(c c40TreeCase, r *vp.Rec) error {
 	}
 	if bytes.Contains(buf.Bytes(), []byte("<pre")) {
 		r.Class("pre")
+	}
+	if bytes.Contains(buf.Bytes(), []byte("<listing")) {
+		r.Class("listing")
 	}
 	return nil
 }
